@@ -254,3 +254,9 @@ Proof.
   - rewrite (sel_run_at (r :: tl') (n + b + d) (n + b + d)) by (try discriminate; lia).
     rewrite seq_app. f_equal. f_equal; lia.
 Qed.
+
+(* ------------------------------------------------------------------ (D) a reader over no partition *)
+Lemma empty_wait_loop_exits fuel : 1 <= fuel -> empty_wait_loop true fuel = Some 1.
+Proof. destruct fuel; [lia|reflexivity]. Qed.
+Lemma empty_wait_loop_spins : forall fuel, empty_wait_loop false fuel = None.
+Proof. induction fuel as [|f IH]; [reflexivity|]. cbn [empty_wait_loop]. rewrite IH. reflexivity. Qed.
